@@ -453,12 +453,21 @@ def run_b(c, res, one_case=None):
 
 
 def cases(tier, seed):
+    # the sequences of calibrations come first (and each is followed by a filler) so that each is the first thing its worker process
+    # executes: state kept by the library from earlier calibrations of the same process cannot mask what they are after
+    later = []
+    for c in layer_b_cases(tier, seed):
+        if c['kind'] == 'B-sequence':
+            yield c
+            yield dict(kind='selection', scale='linear', cont='array', filler=True)
+        else:
+            later.append(c)
     for scale in ('logicle', 'log', 'linear'):
         for cont in ('sample', 'array'):
             yield dict(kind='selection', scale=scale, cont=cont)
     for c in layer_a_cases(tier):
         yield c
-    for c in layer_b_cases(tier, seed):
+    for c in later:
         yield c
 
 
